@@ -1,13 +1,28 @@
 //! splitmix64 based deterministic RNG, cheap to derive per case
 
 #[derive(Clone)]
-pub struct Rng(pub u64);
+pub struct Rng(pub u64, Option<Tape>);
+
+/// draws taken from a byte string instead of the generator (coverage guided fuzzing: the fuzzer mutates the
+/// decisions of a workload directly). Two bytes per draw; zero once the tape has run out.
+#[derive(Clone)]
+pub struct Tape {
+    bytes: Vec<u8>,
+    pos: usize,
+}
 
 impl Rng {
     pub fn new(seed: u64) -> Rng {
-        let mut r = Rng(seed ^ 0x9E3779B97F4A7C15);
+        let mut r = Rng(seed ^ 0x9E3779B97F4A7C15, None);
         r.next();
         r
+    }
+    pub fn from_tape(bytes: &[u8]) -> Rng {
+        Rng(0, Some(Tape { bytes: bytes.to_vec(), pos: 0 }))
+    }
+    /// tape mode only: has the tape run out?
+    pub fn exhausted(&self) -> bool {
+        self.1.as_ref().map(|t| t.pos >= t.bytes.len()).unwrap_or(false)
     }
     /// independent generator for case `idx` of stream `stream` under a run seed
     pub fn for_case(seed: u64, stream: u64, idx: u64) -> Rng {
@@ -21,6 +36,13 @@ impl Rng {
     }
     #[allow(clippy::should_implement_trait)]
     pub fn next(&mut self) -> u64 {
+        if let Some(t) = &mut self.1 {
+            let a = t.bytes.get(t.pos).copied().unwrap_or(0) as u64;
+            let b = t.bytes.get(t.pos + 1).copied().unwrap_or(0) as u64;
+            t.pos += 2;
+            let v = (b << 8) | a;
+            return (v << 48) | (v << 32) | (v << 16) | v;
+        }
         self.0 = self.0.wrapping_add(0x9E3779B97F4A7C15);
         let mut z = self.0;
         z = (z ^ (z >> 30)).wrapping_mul(0xBF58476D1CE4E5B9);
